@@ -105,6 +105,8 @@ type Sim struct {
 	// C11: ack keys seen
 	ackKeys [2]map[string][]byte
 	otherViol int
+	forceTH   *clienttypes.Height
+	forceTT   *uint64
 }
 
 type opMeta struct {
@@ -233,6 +235,9 @@ func mockData(kind string) []byte {
 // chooseTimeout picks a timeout relative to the destination chain's clock.
 // soon=true makes it expire within a few blocks.
 func (s *Sim) chooseTimeout(l *Lane, src int, soon bool) (clienttypes.Height, uint64) {
+	if s.forceTH != nil && s.forceTT != nil {
+		return *s.forceTH, *s.forceTT
+	}
 	dst := s.Ch[1-src]
 	dh := uint64(dst.App.LastBlockHeight())
 	now := s.W.Coord.CurrentTime
@@ -273,6 +278,13 @@ func (s *Sim) Send(l *Lane, src int, kind string, soon bool, nPayloads int) *Pkt
 	th, tt := s.chooseTimeout(l, src, soon)
 	s.cur = &opMeta{kind: "send", side: src}
 	defer func() { s.cur = nil }()
+	viewH, viewT, viewOK := s.clientView(l, src)
+	blockSecs := uint64(s.W.Coord.CurrentTime.Unix())
+	defer func() {
+		if p := recover(); p != nil {
+			panic(p)
+		}
+	}()
 	var o *kit.Outcome
 	p := &Pkt{L: l, Src: src}
 	dom := l.seqDomain(src)
@@ -345,12 +357,50 @@ func (s *Sim) Send(l *Lane, src int, kind string, soon bool, nPayloads int) *Pkt
 		p.V2 = channeltypesv2.NewPacket(resp.Sequence, l.id(src), l.id(1-src), tt, payloads...)
 	}
 	_ = dom
+	// send-time guards of C08 (success ⇒ guard), judged against the client's view read before the send
+	if viewOK {
+		s.C.Inc("send_guard_checks")
+		if l.V2 {
+			if uint64(viewT.Unix()) >= tt {
+				s.viol("C08", "v2-send-with-timeout-passed-on-client", "v2 send accepted with timeout %d although the client's latest consensus time is %d", tt, viewT.Unix())
+			}
+			if tt <= blockSecs {
+				s.viol("C08", "v2-send-with-elapsed-timeout", "v2 send accepted with timeout %d at block time %d", tt, blockSecs)
+			}
+			if tt > blockSecs+86400 {
+				s.viol("C08", "v2-send-timeout-too-far", "v2 send accepted with timeout %d more than 24h after block time %d", tt, blockSecs)
+			}
+		} else {
+			if !th.IsZero() && (viewH.RevisionNumber > th.RevisionNumber || (viewH.RevisionNumber == th.RevisionNumber && viewH.RevisionHeight >= th.RevisionHeight)) {
+				s.viol("C08", "send-with-timeout-height-passed-on-client", "send accepted with timeout height %s although the client's latest height is %s", th, viewH)
+			}
+			if tt != 0 && uint64(viewT.UnixNano()) >= tt {
+				s.viol("C08", "send-with-timeout-time-passed-on-client", "send accepted with timeout timestamp %d although the client's latest consensus time is %d", tt, viewT.UnixNano())
+			}
+		}
+	}
 	p.SentH = o.Height
 	s.Pkts = append(s.Pkts, p)
 	s.bySrc[srcKey(src, l.id(src), p.Seq)] = p
 	s.log("send %s kind=%s soon=%v -> seq %d", p, kind, soon, p.Seq)
 	s.C.Inc("sends_" + l.Name)
 	return p
+}
+
+// clientView returns the latest height and consensus time of the counterparty as known to the client the lane uses on `side`.
+func (s *Sim) clientView(l *Lane, side int) (clienttypes.Height, time.Time, bool) {
+	ch := s.Ch[side]
+	ck := ch.App.GetIBCKeeper().ClientKeeper
+	id := l.ep(side).ClientID
+	h := ck.GetClientLatestHeight(ch.GetContext(), id)
+	if h.IsZero() {
+		return clienttypes.Height{}, time.Time{}, false
+	}
+	ts, err := ck.GetClientTimestampAtHeight(ch.GetContext(), id, h)
+	if err != nil {
+		return clienttypes.Height{}, time.Time{}, false
+	}
+	return h, time.Unix(0, int64(ts)), true
 }
 
 func unmarshalResp(o *kit.Outcome, i int, m proto.Message) error {
